@@ -3,6 +3,9 @@ package checks
 import (
 	"bufio"
 	"bytes"
+	"crypto"
+	"crypto/ed25519"
+	crand "crypto/rand"
 	"crypto/x509/pkix"
 	"encoding/asn1"
 	"encoding/json"
@@ -200,6 +203,36 @@ func noLF(i int) []byte {
 // serials and length fields chosen accordingly; the entry count is raised until the length fields comply): the reader decides by a
 // line-oriented look at the head of the file whether it is PEM, and a list without line ends is as well-formed as any other.
 // Returns the offset of the first 0x0A byte of the DER encoding.
+// buildBigCRLAlg: the same list signed under another algorithm of the signature registry (the key is made for the occasion)
+func buildBigCRLAlg(path string, n int, fat bool, alg string) error {
+	ca := pki.NewCA(pki.CAOpts{Name: "Big List CA", Serial: 70})
+	now := time.Now().Add(-time.Minute).UTC().Truncate(time.Second)
+	nu := now.Add(24 * time.Hour)
+	doc := &derbuild.Doc{Version: 2, Alg: derbuild.Algs[alg], IssuerRaw: ca.Cert.RawSubject, ThisUpdate: now, NextUpdate: &nu, ListPresent: true, ExtsPresent: true}
+	var fatExt []pkix.Extension
+	if fat {
+		fatExt = []pkix.Extension{{Id: asn1.ObjectIdentifier{1, 3, 6, 1, 4, 1, 99999, 17}, Value: derbuild.OctetString(bytes.Repeat([]byte{0x42}, 400))}}
+	}
+	base := new(big.Int).Lsh(big.NewInt(0x5e), 64)
+	doc.Entries = make([]derbuild.Entry, n)
+	for i := range doc.Entries {
+		doc.Entries[i] = derbuild.Entry{Serial: new(big.Int).Add(base, big.NewInt(int64(i))), Date: now, Exts: fatExt}
+	}
+	var key crypto.Signer
+	switch derbuild.Algs[alg].Key {
+	case "ed25519":
+		_, k, _ := ed25519.GenerateKey(crand.Reader)
+		key = k
+	default:
+		key = ca.Key
+	}
+	b, err := doc.Build(key)
+	if err != nil {
+		return err
+	}
+	return os.WriteFile(path, b.DER, 0o644)
+}
+
 func buildBigCRLAlphabet(path string, n int, pem bool, fat bool, lfFree bool) (int, error) {
 	ca := pki.NewCA(pki.CAOpts{Name: "Big List CA", Serial: 70})
 	alg := "ecdsaWithSHA256"
@@ -252,6 +285,7 @@ type c17Run struct {
 	N     int
 	Pem   bool
 	NoLF  bool   // DER without any line feed byte before its crlExtensions
+	Alg   string // "" = ecdsaWithSHA256; otherwise another algorithm (a list the implementation does not accept is no case)
 	Sig   string // validator path: signature validation mode ("" = none); the signer of the big lists is not configured as trusted
 }
 
@@ -288,6 +322,16 @@ func C17(c *vk.Ctx) {
 			files[fmt.Sprintf("%d-nolf-%v", n, fat)] = p
 		}
 	}
+	// signature algorithms beyond the usual ones: whatever the implementation accepts must be read within the same bound
+	for _, n := range []int{n1, n2} {
+		for _, fat := range []bool{false, true} {
+			p := filepath.Join(dir, fmt.Sprintf("list-%d-ed25519-%v.crl", n, fat))
+			if err := buildBigCRLAlg(p, n, fat, "ed25519"); err != nil {
+				c.Infra("build ed25519 crl: %v", err)
+			}
+			files[fmt.Sprintf("%d-ed25519-%v", n, fat)] = p
+		}
+	}
 	srv := httptest.NewServer(http.FileServer(http.Dir(dir)))
 	defer srv.Close()
 	runs := []c17Run{}
@@ -296,7 +340,8 @@ func C17(c *vk.Ctx) {
 			c17Run{Mode: "validator", Store: "disk", N: n, Pem: true, NoLF: false}, c17Run{Mode: "validator", Store: "disk", N: n, Pem: false, NoLF: false},
 			c17Run{Mode: "reader", Store: "none", N: n, NoLF: true}, c17Run{Mode: "validator", Store: "disk", N: n, NoLF: true},
 			// the list is taken in although its signer cannot be verified (verify_log): that path reads the same file
-			c17Run{Mode: "validator", Store: "disk", N: n, Sig: "verify_log"})
+			c17Run{Mode: "validator", Store: "disk", N: n, Sig: "verify_log"},
+			c17Run{Mode: "reader", Store: "none", N: n, Alg: "ed25519"}, c17Run{Mode: "validator", Store: "disk", N: n, Alg: "ed25519"})
 	}
 	if c.Thorough() {
 		runs = append(runs, c17Run{Mode: "reader", Store: "disk", N: n2, Pem: true, NoLF: false}, c17Run{Mode: "reader", Store: "memory", N: n1, Pem: false, NoLF: false}, c17Run{Mode: "reader", Store: "disk", N: n2, NoLF: true})
@@ -308,6 +353,9 @@ func C17(c *vk.Ctx) {
 		path := files[fmt.Sprintf("%d-%v-%v", r.N, r.Pem, r.Mode == "validator")]
 		if r.NoLF {
 			path = files[fmt.Sprintf("%d-nolf-%v", r.N, r.Mode == "validator")]
+		}
+		if r.Alg != "" {
+			path = files[fmt.Sprintf("%d-%s-%v", r.N, r.Alg, r.Mode == "validator")]
 		}
 		arg := path
 		if r.Mode == "validator" {
@@ -321,6 +369,11 @@ func C17(c *vk.Ctx) {
 		cmd := exec.Command(self, "worker", "c17", wmode, arg, strconv.Itoa(r.N), r.Store, out)
 		cmd.Env = os.Environ()
 		if b, err := cmd.CombinedOutput(); err != nil {
+			if r.Alg != "" {
+				// the implementation does not take lists of this algorithm: nothing to bound
+				c.Eval(fmt.Sprintf("%+v (not accepted)", r))
+				continue
+			}
 			c.Infra("c17 worker %+v: %v\n%s", r, err, string(b))
 		}
 		trace, err := os.ReadFile(out)
@@ -347,6 +400,9 @@ func C17(c *vk.Ctx) {
 		}
 		if r.Sig != "" {
 			key += "/sig=" + r.Sig
+		}
+		if r.Alg != "" {
+			key += "/alg=" + r.Alg
 		}
 		if maxHeap[key] == nil {
 			maxHeap[key] = map[int]int64{}
